@@ -85,7 +85,7 @@ def scale (lat lon : F64) : Except Err (Option (Nat × Nat)) :=
   let loneps := MathF.hd / shift
   let lateps := MathF.qd / shift
   if F64.gt (F64.abs lat) MathF.qd then .error "lat" else
-  if lat.isNaN || lon.isNaN then .ok none else
+  if lat.isNaN || !lon.isFinite then .ok none else   -- the code normalises lon first: an infinite longitude becomes NaN (fix d0a70a5)
   let lat := if F64.eq lat MathF.qd then lat - lateps / 2 else lat
   let lon := MathF.angNormalize lon
   let lon := if F64.eq lon MathF.hd then F64.neg MathF.hd else lon
@@ -185,7 +185,7 @@ def encodeInt (X Y : Int) (prec : Nat) : List Char :=
 
 def scaleWith (mulf : F64 → F64 → Int) (lat lon : F64) : Except Err (Option (Int × Int)) :=
   if F64.gt (F64.abs lat) MathF.qd then .error "lat" else
-  if lat.isNaN || lon.isNaN then .ok none else
+  if lat.isNaN || !lon.isFinite then .ok none else   -- the code normalises lon first: an infinite longitude becomes NaN (fix d0a70a5)
   let lon := MathF.angNormalize lon
   let lon := if F64.eq lon MathF.hd then F64.neg MathF.hd else lon
   -- lat *= (1 - eps/2)
@@ -296,7 +296,7 @@ def encodeInt (X Y : Int) (prec : Int) : List Char :=
 
 def scaleWith (mulf : F64 → F64 → Int) (lat lon : F64) : Except Err (Option (Int × Int)) :=
   if F64.gt (F64.abs lat) MathF.qd then .error "lat" else
-  if lat.isNaN || lon.isNaN then .ok none else
+  if lat.isNaN || !lon.isFinite then .ok none else   -- the code normalises lon first: an infinite longitude becomes NaN (fix d0a70a5)
   let lon := MathF.angNormalize lon
   let lon := if F64.eq lon MathF.hd then F64.neg MathF.hd else lon
   let lat := if F64.eq lat MathF.qd then lat * (.fin false (2 ^ 53 - 1) (-53)) else lat
